@@ -136,11 +136,11 @@ static struct meter metered_load(const unsigned char *in, long n, const char *pa
 		clock_gettime(CLOCK_PROCESS_CPUTIME_ID, &ts);
 		t0 = ts.tv_sec + ts.tv_nsec * 1e-9;
 	}
-	/* each entry point (test + load) has its own 12 s wall budget, and the CPU figure judged against the
+	/* each entry point (test + load) has its own 60 s wall budget (hang guard only; CPU time is what is judged), and the CPU figure judged against the
 	 * limit is the largest of the three: the limit is stated per test/load of one input */
 	m.cpu = 0;
 #define GROUP_BEGIN() do { struct timespec ts_; clock_gettime(CLOCK_PROCESS_CPUTIME_ID, &ts_); \
-		t0 = ts_.tv_sec + ts_.tv_nsec * 1e-9; alarm(12); } while (0)
+		t0 = ts_.tv_sec + ts_.tv_nsec * 1e-9; alarm(60); } while (0)
 #define GROUP_END() do { struct timespec ts_; double d_; alarm(0); clock_gettime(CLOCK_PROCESS_CPUTIME_ID, &ts_); \
 		d_ = ts_.tv_sec + ts_.tv_nsec * 1e-9 - t0; if (d_ > m.cpu) m.cpu = d_; } while (0)
 	GROUP_BEGIN();
